@@ -45,6 +45,8 @@ func (q sreqCase) pathMethod() (string, string) {
 		return "ArithP", "Mul"
 	case "func":
 		return "Fn", "mul"
+	case "funcp": // a registered function whose argument / reply types are pooled (implement Reset)
+		return "FnP", "mul"
 	case "router":
 		return "Rt", "mul"
 	case "nosvc":
@@ -58,7 +60,7 @@ func (q sreqCase) target() string {
 	switch q.style {
 	case "method", "pooled":
 		return "method"
-	case "func":
+	case "func", "funcp":
 		return "func"
 	case "router":
 		return "router"
@@ -502,7 +504,7 @@ func genSreq(prop string, r *common.Rand, nconn int) sreqCase {
 	if r.Chance(20) {
 		q.seq = r.U64()
 	}
-	q.style = []string{"method", "method", "pooled", "pooled", "func", "router", "nosvc", "nometh"}[r.Intn(8)]
+	q.style = []string{"method", "method", "pooled", "pooled", "func", "funcp", "router", "nosvc", "nometh"}[r.Intn(9)]
 	failP := 25
 	if prop == "C07" {
 		failP = 60
@@ -564,7 +566,7 @@ func runSrv(prop string, r *common.Rand, tier string, o *common.Out, replay stri
 			rounds = 200
 		}
 		for i := 0; i < rounds; i++ {
-			for _, style := range []string{"method", "pooled", "func"} {
+			for _, style := range []string{"method", "pooled", "func", "funcp"} {
 				mk := func(seq uint64, a, b int, omit, ow bool) sreqCase {
 					return sreqCase{conn: 0, seq: seq, style: style, ser: 1, a: a, b: b, omitB: omit, ow: ow, mode: "ok"}
 				}
